@@ -72,6 +72,58 @@ def harness(exe, args, timeout=1800, env=None):
     return out
 
 
+def drop_aborted_runs(path, aborted):
+    """remove from an NDJSON trace the runs (reset .. next reset) whose `run` index is in `aborted`, and lines cut short by an abort"""
+    keep, skipping = [], False
+    for line in open(path, errors="replace"):
+        try:
+            e = json.loads(line)
+        except Exception:
+            continue
+        if e.get("ev") == "reset":
+            skipping = e.get("run") in aborted
+        if not skipping:
+            keep.append(line if line.endswith("\n") else line + "\n")
+    open(path, "w").writelines(keep)
+
+
+def harness_supervised(exe, args, out, total, stall=60):
+    """Run a harness command that processes `total` cases, reports the case in progress in <out>.progress and accepts
+    --from N. An abort (allocation cap, stack overflow, ...) or a stall is attributed to the case in progress and the run
+    resumes behind it. Returns [(case index, kind, stderr tail)]."""
+    import time
+    start, aborts = 0, []
+    progress = out + ".progress"
+    if os.path.exists(out):
+        os.remove(out)
+    while start < total:
+        if os.path.exists(progress):
+            os.remove(progress)
+        errp = out + ".stderr"
+        p = subprocess.Popen([exe] + [str(a) for a in args] + ["--from", str(start), "--out", out], stdout=subprocess.DEVNULL, stderr=open(errp, "w"))
+        last, last_t, killed = None, time.time(), False
+        while p.poll() is None:
+            time.sleep(0.2)
+            cur = open(progress).read() if os.path.exists(progress) else None
+            if cur != last:
+                last, last_t = cur, time.time()
+            elif time.time() - last_t > stall:
+                p.kill(); killed = True
+                break
+        p.wait()
+        cur = open(progress).read() if os.path.exists(progress) else None
+        if cur == "done":
+            break
+        if cur is None:
+            raise ToolError(f"harness {args[0]} died before its first case rc={p.returncode}\n" + open(errp, errors="replace").read()[-2000:])
+        idx = int(cur)
+        err = open(errp, errors="replace").read()
+        kind = "timeout" if killed else ("alloc_cap" if "memory allocation of" in err else "abort")
+        aborts.append((idx, kind, err[-300:]))
+        start = idx + 1
+    return aborts
+
+
 # ------------------------------------------------------------------------------------------
 # TLC
 # ------------------------------------------------------------------------------------------
